@@ -24,6 +24,10 @@ pub open spec fn lift_msg<C>(m: CosmosMsg<Empty>) -> CosmosMsg<C> {
 // cosmwasm_std::Response builder calls used by customize_response   (ASSUMED: std docs of cosmwasm-std 2.2.2 results/response.rs)
 impl<T> Response<T> {
     #[verifier::external_body]
+    pub fn set_data(self, data: Binary) -> (r: Self)
+        ensures r.data == Some(data), r.messages == self.messages, r.attributes == self.attributes, r.events == self.events
+    { unimplemented!() }
+    #[verifier::external_body]
     pub fn new() -> (r: Self) ensures r.messages@.len() == 0, r.attributes@.len() == 0, r.events@.len() == 0, r.data is None { unimplemented!() }
     #[verifier::external_body]
     pub fn add_submessages<I: Iterator<Item = SubMsg<T>>>(self, msgs: I) -> (r: Self)
